@@ -13,12 +13,13 @@ for n in sorted(os.listdir(os.path.join(V, "seeded"))):
     def cell(tier):
         out = []
         for k, v in sorted(r.items()):
-            if not isinstance(v, dict) or not k.endswith(":" + tier): continue
+            if not isinstance(v, dict) or len(k.split(":")) < 2 or k.split(":")[1] != tier: continue
             c = k.split(":")[0]
             if v.get("caught"):
                 q = [l for l in v.get("violations", []) if l.strip().startswith("query=")]
                 job = q[0].split("query=")[1].split("/")[0] if q else ""
-                out.append("**caught** by %s (`%s`), %ds" % (c, job, v.get("wall_s", 0)))
+                tgt = (" [only %s %s]" % (v.get("job") or "", v.get("shard_filter") or "")) if (v.get("job") or v.get("shard_filter")) else ""
+                out.append("**caught** by %s (`%s`)%s, %ds" % (c, job, tgt, v.get("wall_s", 0)))
             else:
                 extra = ""
                 if v.get("not_covered"): extra = ", %d queries not covered" % v["not_covered"]
